@@ -12,5 +12,5 @@ for c in "$@"; do
   for f in $(echo "$out" | grep '^VIOLATION' | head -2 | sed 's/.*replay=\([^ ]*\).*/\1/'); do python3 -c "
 import json,sys; r=json.load(open('$f')); print('   ', r.get('signature'), '|', str(r.get('what'))[:160])"; done
 done
-cd /repo && git checkout -- . && git clean -fdq -- . >/dev/null 2>&1
+cd /repo && git checkout -- . && git clean -fdq -- . >/dev/null 2>&1; /verif/tools/bin/translate >/dev/null; python3 /verif/tools/ontology/onto.py >/dev/null
 git status --short | head -3
